@@ -30,7 +30,7 @@ COMPONENTS = {
              "market feed: simulator writes garbage / truth into instrument buffers", "user pricers for listed hedges"],
 }
 ASSUMPTIONS = ["bitwise comparison with the clean run (NaN == NaN)", "'empty' feature excluded", "CPU only"]
-PROBES = ["online_feed", "offline_vectorised", "offline_stepwise", "feature_single_step", "feature_all_steps",
+PROBES = ["earlier_pass_aborted", "online_feed", "offline_vectorised", "offline_stepwise", "feature_single_step", "feature_all_steps",
           "path_dependent_feature", "listed_hedge", "maturity_no_trade", "bs_model", "ww_model", "module_output",
           "fill_nan", "fill_rand", "fill_huge", "grad_enabled_run", "kept_feature_object"]
 FILLS = ["rand", "rand", "huge", "nan", "neg", "zero"]
@@ -65,7 +65,11 @@ def generate(rng):
     world = {"primaries": [prim], "derivatives": derivs, "models": models, "criteria": [], "hedgers": hedgers}
     ops = [{"op": "simulate", "target": "d0", "n_paths": rng.npaths([1, 2, 3, 5, 8]), "torch_seed": rng.seed31()}]
     for _ in range(rng.randint(2, 8)):
-        k = rng.wchoice([("online", 3), ("offline", 4), ("feature", 4), ("simulate", 1)])
+        k = rng.wchoice([("online", 3), ("offline", 4), ("feature", 4), ("simulate", 1), ("aborted", 1)])
+        if k == "aborted":
+            # F8: a pass of one of the hedgers over the current paths was aborted (the model raised at its k-th step)
+            ops.append({"op": "aborted", "hedger": rng.choice(hedgers)["id"], "derivative": "d0", "hedge": hedge, "after": rng.randint(0, 4)})
+            continue
         if k == "simulate":
             ops.append({"op": "simulate", "target": "d0", "n_paths": rng.choice([1, 2, 3, 5]), "torch_seed": rng.seed31()})
             continue
@@ -139,6 +143,33 @@ def _execute(program, stats, hist):
             N = next(iter(d.underliers())).spot.shape[0]
         except Exception:
             raise Inconclusive("not simulated")
+        if name == "aborted":
+            hedger = world.hedgers[op["hedger"]]
+            hedger.to(next(iter(d.underliers())).spot.dtype)
+            cast_module_outputs(hedger.inputs, next(iter(d.underliers())).spot.dtype)
+
+            class _Fault(RuntimeError):  # what torch itself raises on a shape or dtype error
+                pass
+            calls = [0]
+
+            def boom(mod, args, _after=op["after"]):
+                calls[0] += 1
+                if calls[0] > _after:
+                    raise _Fault("injected")
+            handle = hedger.model.register_forward_pre_hook(boom)
+            raised = False
+            try:
+                with torch.no_grad():
+                    hedger.compute_hedge(d, hedge=world.hedge_list(op.get("hedge")))
+            except Exception:
+                raised = True
+            finally:
+                handle.remove()
+            stats.fault("F8_callback_exception")
+            if raised:
+                stats.probe("earlier_pass_aborted")
+            hist.add(op=name, raised=raised)
+            continue
         gen = torch.Generator()
         gen.manual_seed(op["seed"])
         stats.probe("fill_" + op["fill"])
